@@ -537,7 +537,10 @@ def main(args=None):
         print('Wrote profile results to %s' % options.outfile)
         if options.view:
             if isinstance(prof, ContextualProfile):
-                prof.print_stats()
+                # Note: `pstats` cannot load a profile without any data
+                # (e.g. when nothing was decorated with `@profile`)
+                if getattr(prof, 'stats', None):
+                    prof.print_stats()
             else:
                 prof.print_stats(output_unit=options.unit,
                                  stripzeros=options.skip_zero,
